@@ -33,7 +33,7 @@ RULE = ('each run = a line sequence (<= 40 lines) built from a well-formed clear
         'line is present and a fault was applied; distinct = distinct (line-class sequence, outcome); coverage '
         'measure `states` = (loader state x line class) pairs reached according to the reference framing model')
 PLAN = {'quick': {'n': 30000, 'budget_s': 90, 'block': 100, 'det': 3},
-        'thorough': {'n': 200000, 'budget_s': 1500, 'block': 500, 'det': 4}}
+        'thorough': {'n': 1500000, 'budget_s': 2400, 'block': 500, 'det': 4}}
 ASSUMPTIONS = ['armor lines with trailing whitespace, CR-LF line ends and a missing final newline after END PGP SIGNATURE are a don\'t-care zone for completeness (they may be rejected), never for soundness',
                'a second signed block after the first may be reported as unsigned data or as misplaced armor']
 COMPONENTS_REAL = ['gpg 2.2.40 for signing payloads, for the ground-truth cleartext (--decrypt) and behind IsolatedGPGEnvironment in real runs']
